@@ -281,6 +281,48 @@ def _exec_of_job(fn):
     return table
 
 
+def _recorder(itree):
+    """Shape of the Job row written by record_job_start / record_job_end. Returns whether the start row carries
+    `call_hash=job.call_hash`; anything else that touches end_time / cached / call_hash is outside the grammar."""
+    be = _find_class(itree, "RedunBackendDb")
+    start = _find_func(be, "record_job_start")
+    ctor = [n for n in ast.walk(start) if isinstance(n, ast.Call) and isinstance(n.func, ast.Name) and n.func.id == "Job"]
+    if len(ctor) != 1 or ctor[0].args:
+        _fail(start, "record_job_start: expected exactly one Job(...) construction with keyword arguments")
+    kws = {kw.arg: kw.value for kw in ctor[0].keywords}
+    if None in kws:
+        _fail(ctor[0], "record_job_start: Job(**...)")
+    required = {"id", "start_time", "task_hash", "parent_id", "execution_id"}
+    if not required <= set(kws):
+        _fail(ctor[0], "record_job_start: Job(...) lacks %s" % sorted(required - set(kws)))
+    extra = set(kws) - required
+    writes = False
+    for k in sorted(extra):
+        if k == "call_hash" and ast.unparse(kws[k]) == "job.call_hash":
+            writes = True
+        else:
+            _fail(ctor[0], "record_job_start: unsupported Job(..., %s=%s)" % (k, ast.unparse(kws[k])))
+    for n in ast.walk(start):
+        if isinstance(n, (ast.Assign, ast.AugAssign)):
+            for t in (n.targets if isinstance(n, ast.Assign) else [n.target]):
+                if isinstance(t, ast.Attribute) and t.attr in ("end_time", "cached", "call_hash"):
+                    _fail(n, "record_job_start assigns a status column")
+    end = _find_func(be, "record_job_end")
+    assigns = {}
+    for n in ast.walk(end):
+        if isinstance(n, ast.Assign):
+            for t in n.targets:
+                if isinstance(t, ast.Attribute) and ast.unparse(t.value) == "db_job":
+                    if t.attr in assigns:
+                        _fail(n, "record_job_end assigns db_job.%s twice" % t.attr)
+                    assigns[t.attr] = ast.unparse(n.value)
+    if assigns != {"cached": "job.was_cached", "end_time": "now", "call_hash": "job.call_hash"}:
+        _fail(end, "record_job_end no longer assigns exactly cached=job.was_cached, end_time=now, call_hash=job.call_hash: %r" % assigns)
+    if "db_job = self.record_job_start(job, now=now)" not in ast.unparse(end):
+        _fail(end, "record_job_end no longer creates a missing job through record_job_start")
+    return writes
+
+
 def translate(repo: str) -> str:
     qpath = os.path.join(repo, "redun/backends/db/query.py")
     ipath = os.path.join(repo, "redun/backends/db/__init__.py")
@@ -380,6 +422,9 @@ else:
     return self._status
 """, "Execution.status")
 
+    # --- recorder: which of end_time / cached / call_hash do record_job_start and record_job_end write?
+    start_writes_call_hash = _recorder(itree)
+
     names = tr.err_names | err_names
     if len(names) != 1:
         raise TranslateError("filter terms and calc_status do not use one and the same error type name: %r" % sorted(names))
@@ -416,6 +461,11 @@ else:
     L.append("def execJobJoin : Join := %s" % jj_exec[0][0])
     L.append("")
     L.append("def errorTypeName : String := %s" % _lean_str(err_name))
+    L.append("")
+    L.append("/-- `RedunBackendDb.record_job_start`: is the Job row inserted with `call_hash=job.call_hash`?")
+    L.append("(`end_time` and `cached` are never given there; `record_job_end` assigns `cached = job.was_cached`,")
+    L.append("`end_time = now`, `call_hash = job.call_hash` - both checked by the translator) -/")
+    L.append("def startWritesCallHash : Bool := %s" % ("true" if start_writes_call_hash else "false"))
     L.append("")
     L.append("end RedunModel.Generated.Status")
     return "\n".join(L) + "\n"
